@@ -9,7 +9,7 @@ import ast
 import z3
 
 from . import extract
-from .core import Unsupported, PathEnd, Infeasible
+from .core import Unsupported, PathEnd, Infeasible, Impure
 from .values import (Obj, Rec, SymOpt, SymSeq, SymSet, SymMap, MapEntry, MapItems, Untracked, Func,
                      Closure, ClassRef, ModuleRef, Poison, UF, ObjS, StrS, IntS, RealS, BoolS, to_z3,
                      wrap, is_sym, seq_col, set_expr)
@@ -568,8 +568,51 @@ class Interp:
             return Untracked()
         return wrap(z3.Select(m.fields[field], zk), getattr(m, 'value_cls', None))
 
+    def _simple_block(self, stmts):
+        for st in stmts:
+            if isinstance(st, ast.Pass):
+                continue
+            if isinstance(st, ast.If):
+                if not (self._simple_block(st.body) and self._simple_block(st.orelse)):
+                    return False
+                continue
+            if isinstance(st, ast.Assign) and all(isinstance(t, ast.Name) for t in st.targets):
+                continue
+            if isinstance(st, ast.AugAssign) and isinstance(st.target, ast.Name):
+                continue
+            return False
+        return True
+
     def st_If(self, s, fr):
         c = self.truthy(self.eval(s.test, fr))
+        if not isinstance(c, bool) and not self.ctx.pure and self._simple_block(s.body) and self._simple_block(s.orelse) \
+                and not getattr(fr, 'global_names', None):
+            envs = []
+            for cond, block in ((c, s.body), (z3.Not(c), s.orelse)):
+                f2 = Frame.__new__(Frame)
+                f2.__dict__.update(fr.__dict__)
+                f2.env = dict(fr.env)
+                ok, _ = self.speculate(cond, lambda: self.exec_block(block, f2))
+                if not ok:
+                    envs = None
+                    break
+                envs.append(f2.env)
+            if envs is not None:
+                merged = {}
+                good = True
+                for nme in set(envs[0]) | set(envs[1]):
+                    if nme not in envs[0] or nme not in envs[1]:
+                        good = False
+                        break
+                    m = self.merge_values(c, envs[0][nme], envs[1][nme])
+                    if m is _MISSING:
+                        good = False
+                        break
+                    merged[nme] = m
+                if good:
+                    fr.env.clear()
+                    fr.env.update(merged)
+                    return
         if self.ctx.branch(c, 'if@%d' % s.lineno):
             self.exec_block(s.body, fr)
         else:
@@ -996,14 +1039,81 @@ class Interp:
             return UF('str_of_obj', ObjS, StrS)(x.expr)
         raise Unsupported('str() of %r' % (x,))
 
+    def speculate(self, cond, fn):
+        """Evaluate fn() under the extra assumption cond without forking; returns (ok, value)."""
+        ctx = self.ctx
+        ctx.assumptions.append(cond)
+        ctx.pure += 1
+        try:
+            return True, fn()
+        except (Impure, PyRaise, _Return, _Break, _Continue, Unsupported):
+            return False, None
+        finally:
+            ctx.pure -= 1
+            ctx.assumptions.pop()
+
+    def merge_values(self, c, a, b):
+        """If(c, a, b) for scalar values; _MISSING when the two values cannot be merged."""
+        if a is b:
+            return a
+        if isinstance(a, (bool, int, float, str)) and isinstance(b, (bool, int, float, str)) and type(a) is type(b) and a == b:
+            return a
+        scal = (bool, int, float, str)
+        if (is_sym(a) or isinstance(a, scal)) and (is_sym(b) or isinstance(b, scal)):
+            try:
+                za, zb = self._coerce_pair(a, b)
+            except Unsupported:
+                return _MISSING
+            if za.sort() == zb.sort():
+                return z3.If(c, za, zb)
+        if isinstance(a, Obj) and isinstance(b, Obj) and a.cls == b.cls and a.cls not in ('pyany', 'pydict'):
+            return Obj(z3.If(c, a.expr, b.expr), a.cls)
+        return _MISSING
+
     def ex_IfExp(self, e, fr):
         c = self.truthy(self.eval(e.test, fr))
+        if not isinstance(c, bool) and not self.ctx.pure:
+            ok1, a = self.speculate(c, lambda: self.eval(e.body, fr))
+            if ok1:
+                ok2, b = self.speculate(z3.Not(c), lambda: self.eval(e.orelse, fr))
+                if ok2:
+                    m = self.merge_values(c, a, b)
+                    if m is not _MISSING:
+                        return m
         if self.ctx.branch(c, 'ifexp@%d' % e.lineno):
             return self.eval(e.body, fr)
         return self.eval(e.orelse, fr)
 
     def ex_BoolOp(self, e, fr):
         is_and = isinstance(e.op, ast.And)
+        if not self.ctx.pure or True:
+            # eager evaluation when every operand is a pure boolean: one formula instead of one fork per operand
+            ctx = self.ctx
+            ctx.pure += 1
+            try:
+                vals = []
+                acc_cond = []
+                okk = True
+                for sub in e.values:
+                    # operand i is evaluated under "all earlier operands truthy (and) / falsy (or)"
+                    ctx.assumptions.extend(acc_cond)
+                    try:
+                        v = self.eval(sub, fr)
+                        t = self.truthy(v)
+                    finally:
+                        for _ in acc_cond:
+                            ctx.assumptions.pop()
+                    if not (isinstance(t, bool) or (is_sym(t) and t.sort() == BoolS)) or not (isinstance(v, bool) or (is_sym(v) and v.sort() == BoolS)):
+                        okk = False
+                        break
+                    vals.append(to_z3(t))
+                    acc_cond.append(to_z3(t) if is_and else z3.Not(to_z3(t)))
+                if okk:
+                    return z3.simplify(z3.And(*vals)) if is_and and False else (z3.And(*vals) if is_and else z3.Or(*vals))
+            except (Impure, PyRaise, Unsupported):
+                pass
+            finally:
+                ctx.pure -= 1
         v = None
         for i, sub in enumerate(e.values):
             v = self.eval(sub, fr)
@@ -1364,7 +1474,7 @@ class Interp:
             n = o.length()
             zk = to_z3(k, IntS)
             inb = z3.And(zk >= -n, zk < n)
-            if not self.ctx.branch(inb, 'index@%d' % node.lineno):
+            if not self.ctx.branch(inb, 'index@%d' % node.lineno, prune=True):
                 self.raise_py('IndexError', node)
             idx = z3.If(zk >= 0, zk, n + zk)
             return o.elem(z3.simplify(idx))
@@ -1748,6 +1858,8 @@ class Interp:
                 return None
             if attr == 'setdefault':
                 return o.setdefault(args[0], args[1] if len(args) > 1 else None)
+        if isinstance(o, str) and attr == 'format' and not args:
+            return self.str_format(o, kwargs, node)
         if isinstance(o, str) and all(isinstance(a, (str, int)) for a in args) and attr in STR_METHODS_CONCRETE:
             return getattr(o, attr)(*args)
         if (is_sym(o) and o.sort() == StrS) or isinstance(o, str):
@@ -1760,7 +1872,30 @@ class Interp:
             return h.fn(self, [o] + list(args), kwargs, node)
         raise Unsupported('method .%s on %r' % (attr, o))
 
+    def str_format(self, template, kwargs, node):
+        """'...{name}...'.format(**kwargs) for a concrete template with plain {name} fields."""
+        import string
+        out = None
+        try:
+            parts = list(string.Formatter().parse(template))
+        except ValueError:
+            self.raise_py('ValueError', node)
+        for lit, fld, spec, conv in parts:
+            pieces = [lit] if lit else []
+            if fld is not None:
+                if fld == '' or not fld.isidentifier() or spec or conv:
+                    raise Unsupported('format field {%s}' % fld)
+                if fld not in kwargs:
+                    self.raise_py('KeyError', node)
+                pieces.append(self.to_str(kwargs[fld]))
+            for pc in pieces:
+                z = to_z3(pc, StrS)
+                out = z if out is None else z3.Concat(out, z)
+        return out if out is not None else ''
+
     def str_method(self, z, attr, args, node):
+        if attr == 'split' and not args:
+            return SymSeq([UF('str.split_ws', StrS, z3.SeqSort(StrS))(z)])
         if attr in ('lower', 'upper', 'strip', 'lstrip', 'rstrip', 'title', 'casefold') and not args:
             return UF('str.' + attr, StrS, StrS)(z)
         if attr == 'startswith' and len(args) == 1:
@@ -2059,8 +2194,40 @@ def _b_int(I, args, kwargs, node):
     raise Unsupported('int(%r)' % (v,))
 
 
-def _b_max(I, args, kwargs, node):
-    raise Unsupported('max')
+def _b_max(I, args, kwargs, node, is_min=False):
+    vals = list(args[0]) if len(args) == 1 and isinstance(args[0], (list, tuple)) else list(args)
+    if len(args) == 1 and not isinstance(args[0], (list, tuple)):
+        raise Unsupported('max/min over a symbolic collection')
+    if kwargs:
+        raise Unsupported('max/min with key')
+    if not vals:
+        I.raise_py('ValueError', node)
+    acc = vals[0]
+    for v in vals[1:]:
+        c = I.compare(ast.Lt() if is_min else ast.Gt(), v, acc, node)
+        if isinstance(c, bool):
+            acc = v if c else acc
+        else:
+            za, zb = I._coerce_pair(v, acc)
+            acc = z3.If(c, za, zb)
+    return acc
+
+
+def _b_min(I, args, kwargs, node):
+    return _b_max(I, args, kwargs, node, is_min=True)
+
+
+def _b_getattr(I, args, kwargs, node):
+    if len(args) < 2 or not isinstance(args[1], str):
+        raise Unsupported('getattr with a computed attribute name')
+    o = args[0]
+    if isinstance(o, Rec):
+        if args[1] in o.fields:
+            return o.fields[args[1]]
+        if len(args) == 3:
+            return args[2]
+        I.raise_py('AttributeError', node)
+    raise Unsupported('getattr on %r' % (o,))
 
 
 def _b_type(I, args, kwargs, node):
@@ -2082,6 +2249,6 @@ BUILTINS = {
     'len': _b_len, 'abs': _b_abs, 'bool': _b_bool, 'set': _b_set, 'list': _b_list, 'dict': _b_dict,
     'print': _b_print, 'isinstance': _b_isinstance, 'str': _b_str, 'tuple': _b_tuple,
     'enumerate': _b_enumerate, 'zip': _b_zip, 'range': _b_range, 'sum': _b_sum, 'sorted': _b_sorted,
-    'float': _b_float, 'int': _b_int, 'max': _b_max, 'min': _b_max, 'round': _b_round,
+    'float': _b_float, 'int': _b_int, 'max': _b_max, 'min': _b_min, 'round': _b_round, 'getattr': _b_getattr,
     'defaultdict': _b_defaultdict, 'type': _b_type,
 }
